@@ -59,7 +59,11 @@ int __wrap_gsl_linalg_complex_LU_solve(const gsl_matrix_complex* LU,const gsl_pe
 int __real_gsl_eigen_hermv(gsl_matrix_complex*,gsl_vector*,gsl_matrix_complex*,gsl_eigen_hermv_workspace*);
 int __wrap_gsl_eigen_hermv(gsl_matrix_complex* A,gsl_vector* ev,gsl_matrix_complex* evec,gsl_eigen_hermv_workspace* w){
   verif::sched_yield(SITE_GSL+8); wrm(A); wrm(evec);
-  return __real_gsl_eigen_hermv(A,ev,evec,w);
+  if(ev) wr(ev->data,((ev->size-1)*ev->stride+1)*sizeof(double));
+  // the workspace is scratch the routine writes all over: two threads handing in the same one are racing
+  if(w){ rd(w,sizeof *w); size_t n=w->size; wr(w->d,n*sizeof(double)); wr(w->sd,n*sizeof(double)); wr(w->tau,2*n*sizeof(double)); wr(w->gc,n*sizeof(double)); wr(w->gs,n*sizeof(double)); }
+  int r=__real_gsl_eigen_hermv(A,ev,evec,w);
+  verif::sched_yield(SITE_GSL+9); return r;
 }
 // element accessors: annotate, do not yield (hot)
 gsl_complex __real_gsl_matrix_complex_get(const gsl_matrix_complex*,const size_t,const size_t);
